@@ -432,4 +432,18 @@ theorem fees_within_spread {c : IrCalc} {ur : Int} {r : Rates} (h : calcInterest
     r.groupFee + r.insuranceFee + r.protocolFee + r.base ≤ r.borrowing :=
   Mfi.AccrualL.fees_le_spread h hb
 
+
+open Mfi.Gen.Skel in
+/-- **The accrual clock only moves by accruing.** A bank's `last_update` is what `accrue_interest` measures the elapsed time
+    from, so whatever stamps it without accruing makes the interest of that period vanish. Besides `accrue_interest` itself the
+    only writers are `update_bank_cache` (which stamps the clock when the bank has both deposits and debt) and direct
+    assignments; the translator lists every such site in the whole program (`clockMovers`, regenerated on every run). Every
+    site is preceded, in the same function, by a call of `accrue_interest`, except the six venue handlers, whose banks carry a
+    venue asset tag and can never be borrowed from (C17 `standard_instructions_only_on_own_banks`): with no debt
+    `update_bank_cache` returns before the stamp. A new site without accrual, or an existing one that loses it, breaks this. -/
+theorem clock_moves_only_after_accrual :
+    clockMovers.all (fun e => e.2 || ["kamino_deposit", "kamino_withdraw", "drift_deposit", "drift_withdraw",
+                                      "solend_deposit", "solend_withdraw"].contains e.1) = true
+    ∧ clockMovers.length = 15 := by decide
+
 end Mfi.Props.C06
